@@ -217,6 +217,13 @@ def isolation_groups(tier):
         g2.append([('dt_on', tw, ['x', 'y'] if 'y' in tw else ['x'], (), not past, 2), ('dt_on', tw, ['x', 'y'] if 'y' in tw else ['x'], (), not past, 3)])
     g2.append([('dt_on', 'out = once[1,6] x', ['x'], (), False, 2), ('dt_on', 'out = once[0,5] (x >= 0)', ['x'], (), False, 3)])
     g2.append([('dt_on', 'out = (once[0,4] x) and (once[0,5] y)', ['x', 'y'], (), False, 2), ('dt_on', 'out = historically[0,4] x', ['x'], (), False, 3)])
+    # the same period NUMBER in different units, bounds with explicit units (tables keyed by the number alone would collide)
+    t7, t8 = 'out = once[0,2s] (x >= 0)', 'out = eventually[0,2s] x'
+    g2 += [
+        [('dt_on', t7, ['x'], (), False, 2, (1, 's')), ('dt_on', t7, ['x'], (), False, 3, (1, 'ms'))],
+        [('dt_off', t8, ['x'], (), False, 0, (1, 's')), ('dt_off', t8, ['x'], (), False, 1, (1, 'ms'))],
+        [('dt_off', t8, ['x'], (), False, 0, (1, 'ms')), ('dt_on', t7, ['x'], (), False, 2, (1, 's')), ('dt_off', t8, ['x'], (), False, 1, (1, 's'))],
+    ]
     g3 = [
         [('dt_on', t1, ['x', 'y'], (), False, 0), ('dt_on', t1, ['x', 'y'], (), False, 1), ('dt_off', t1, ['x', 'y'], (), False, 0)],
         [('dt_on', t3, ['x'], sub, False, 0), ('dt_on', t3, ['x'], sub, True, 1), ('ct_on', t5, ['x'], (), False, 0)],
